@@ -9,10 +9,33 @@ From TT Require Import Lib.Base Gen.Handlers Model.Run Spec.Run Spec.C01 Corr.C0
    MultipleExceptions and user subclasses, decorators, fixtures, handlers inserted before or
    during the run for Exception-derived classes), every result flavour, and every history of earlier
    runs of the same instance (i_prev: any number of runs with per-run scripted stages; the observed
-   run is the last). *)
+   run is the last), and every configuration of the RunTest factory (i_runner: any factory of Model.Run.factory
+   - RunTest, subclasses and functions with explicit / star / keyword-only / ** signatures, functools.partial,
+   callable objects, bound methods, factories that cannot be called with last_resort= - installed in any way). *)
 Theorem C01_holds : forall i : input, wf i = true -> spec_okb i (model i) = true.
 Proof. exact model_meets_spec. Qed.
 Print Assumptions C01_holds.
+
+(* the configuration is irrelevant: the run of a case with any factory IS the run with the default RunTest, so
+   every theorem below about run_from / run holds for it; the model's observation does not depend on it *)
+Theorem C01_factory_irrelevant : forall r p s, run_from_runner r p s = run_from p s.
+Proof. exact factory_irrelevant. Qed.
+Print Assumptions C01_factory_irrelevant.
+Theorem C01_model_factory_irrelevant : forall i,
+  model i = model {| i_prev := i_prev i; i_prog := i_prog i; i_flavour := i_flavour i; i_runner := default_runner |}.
+Proof. exact model_factory_irrelevant. Qed.
+Print Assumptions C01_model_factory_irrelevant.
+
+(* why the handler of last resort has to reach the RunTest whichever way it is built (fix F27): with a RunTest
+   that has none, on an instance in ANY state, startTest, every body that is to run, the same exception out of
+   run(), stopTest last - but NO outcome when something propagates *)
+Theorem C01_last_resort_needed : forall p s,
+  exists s' o d prop, run_from_with None p s = (s', prop, false)
+    /\ calls (tr s') = calls (tr s) ++ [TStart] ++ (match prop with None => [TOut o d] | Some _ => [] end) ++ [TStop]
+    /\ map shape (log s') = map shape (log s) ++ expected_log p /\ stack s' = []
+    /\ exists s1, run_from p s = (s1, prop, false).
+Proof. exact no_last_resort_run. Qed.
+Print Assumptions C01_last_resort_needed.
 
 (* ... and the executable statement implies the readable one (Spec.C01.Spec). *)
 Theorem C01_statement : forall i o, spec_okb i o = true -> Spec i o.
@@ -138,8 +161,8 @@ Example C01_example :
               p_setup := (1, [ACleanup 10 [ACleanup 11 [ARaise (Exc CValueError None)]]]); p_up_setup := true;
               p_body := (2, [AInsertHandler CValueError OSkip; ARaise (Exc CKbd None)]);
               p_teardown := (3, [ARaise (Multi [])]); p_up_teardown := true; p_handlers := [] |} in
-  wf {| i_prev := []; i_prog := p; i_flavour := F26 |} = true
-  /\ model {| i_prev := []; i_prog := p; i_flavour := F26 |}
+  wf {| i_prev := []; i_prog := p; i_flavour := F26; i_runner := {| r_factory := RT_OldFn; r_via := VDeco |} |} = true
+  /\ model {| i_prev := []; i_prog := p; i_flavour := F26; i_runner := {| r_factory := RT_OldFn; r_via := VDeco |} |}
      = {| o_events := [Start; Out OErr; Stop]; o_raised := RKbd; o_ran := [1; 2; 3; 10; 11] |}
   /\ raised p = [Exc CKbd None; Multi []; Exc CValueError None].
 Proof. vm_compute. repeat split. Qed.
@@ -152,9 +175,9 @@ Example C01_example_history :
                            p_teardown := (3, []); p_up_teardown := true; p_handlers := [] |} in
   let p1 := mk [ACleanup 10 [ARaise (Exc CKbd None)]] [ARaise (Exc CValueError None)] in
   let p2 := mk [] [AForce; AInsertHandler CValueError OSkip] in
-  let i := {| i_prev := [p1; p2]; i_prog := mk [ACleanup 10 []] []; i_flavour := FExtended |} in
+  let i := {| i_prev := [p1; p2]; i_prog := mk [ACleanup 10 []] []; i_flavour := FExtended; i_runner := {| r_factory := RT_FnKwargs; r_via := VCtor |} |} in
   wf i = true
-  /\ model {| i_prev := []; i_prog := p1; i_flavour := FExtended |}
+  /\ model {| i_prev := []; i_prog := p1; i_flavour := FExtended; i_runner := {| r_factory := RT_FnKwargs; r_via := VCtor |} |}
      = {| o_events := [Start; Out OErr; Stop]; o_raised := RKbd; o_ran := [1; 2; 3; 10] |}
   /\ model i = {| o_events := [Start; Out OFail; Stop]; o_raised := RNone; o_ran := [1; 2; 3; 10] |}
   /\ handlers_before i = [(CValueError, OSkip)].
